@@ -987,8 +987,12 @@ func (cg *cgen) emitValue(val Value) {
 // reusing if duplicate, adding otherwise
 func (cg *cgen) value(v Value) int {
 	for i, v2 := range cg.Values {
-		// need the type check to differentiate object and record
-		if v.Equal(v2) && v.Type() == v2.Type() {
+		// need the type check to differentiate object and record,
+		// and integer from decimal numbers (1e16 vs 10000000000000000):
+		// they are Equal but arithmetic on them takes different paths
+		_, vdn := v.(SuDnum)
+		_, v2dn := v2.(SuDnum)
+		if v.Equal(v2) && v.Type() == v2.Type() && vdn == v2dn {
 			return i
 		}
 	}
